@@ -288,7 +288,12 @@ func (r *rewriter) postCall(c *astutil.Cursor, n *ast.CallExpr) {
 			case 1:
 				// copy the node: the cursor replaces n with a wrapper containing the copy
 				cp := *n
-				c.Replace(call(rt("After1"), r.site(n, "lib:"+fn.Name()), &cp))
+				if sel, ok := n.Fun.(*ast.SelectorExpr); ok && strings.HasPrefix(rs, "*github.com/go-stomp/stomp.") {
+					// go-stomp blocks inside these calls while holding Conn.closeMutex
+					c.Replace(call(rt("After1L"), call(rt("LibEnter"), r.site(n, "lib:"+fn.Name()), sel.X), &cp))
+				} else {
+					c.Replace(call(rt("After1"), r.site(n, "lib:"+fn.Name()), &cp))
+				}
 			case 2:
 				cp := *n
 				r.site(n, "lib:"+fn.Name())
